@@ -24,7 +24,7 @@ type Part struct {
 }
 
 func (p Part) IsParam() bool {
-	return strings.HasPrefix(p.Val, "{") && strings.HasSuffix(p.Val, "}") && len(p.Val) > 2
+	return strings.HasPrefix(p.Val, "{") && strings.HasSuffix(p.Val, "}") && len(p.Val) >= 2
 }
 
 // SplitURL splits "host.tld/seg/seg" into host labels and path segments.
